@@ -61,7 +61,7 @@ import (
 const stallTimeout = 3 * time.Second
 
 // dropDelay: see runCase.
-var dropDelay = 2 * time.Millisecond
+var dropDelay = 5 * time.Millisecond
 
 // sink is the part of hx.Out a case writes to; a case is recorded first so that it can be re-run
 // (see retryable) before anything is printed.
